@@ -33,6 +33,15 @@ theorem den_take (n : Nat) (p : Pipe) (h : p.regular = true) :
   | cycle q => simp [Pipe.regular] at h
   | _ => simp [den]
 
+/-- `is_bidirectional()` of the built iterator is the static `Pipe.bidir` -/
+theorem build_bidir (fuel : Nat) (p : Pipe) : (build fuel p).c.bidir = p.bidir := by
+  induction p with
+  | src s => cases s <;> rfl
+  | each f p ih => exact ih
+  | skip n p ih => exact ih
+  | peekable p ih => exact ih
+  | _ => rfl
+
 /-- what the composition theorem establishes for one pipeline -/
 def Sem (fuel : Nat) (p : Pipe) (xs : List Val) : Prop :=
   Fwd (build fuel p).c (build fuel p).s xs ∧
@@ -218,7 +227,7 @@ theorem pipe_sem (fuel : Nat) (p : Pipe) : ∀ (xs : List Val), p.regular = true
     intro xs hreg herr hden hfit
     simp only [den] at hden
     have ⟨h1, h2⟩ := ih xs hreg herr hden hfit
-    exact ⟨peekable_fwd _ _ xs h1, fun hb => peekable_deq _ _ xs (h2 hb)⟩
+    exact ⟨peekable_fwd _ _ xs h1, fun hb => peekable_deq _ _ xs (by rw [build_bidir]; exact hb) (h2 hb)⟩
   | pairFirst p ih =>
     intro xs hreg herr hden hfit
     simp only [den, Option.map_eq_some_iff] at hden
